@@ -14,6 +14,15 @@ FW_RULE = ("cases = random validated machine sets x call histories drawn from on
            "A case is non-trivial when %s; distinct = distinct wire encodings.")
 
 PROPS = {
+    "C10": {
+        "sub": "fw",
+        "n": {"quick": 2500, "thorough": 200000},
+        "coq_sample": {"quick": 20, "thorough": 200},
+        "rule": ("pairs of cases drawn from one SplitMix64 state: a deterministic machine M (probability-1 transitions, constant distributions, counters, limits, "
+                 "budgets, no SIGNAL target) at a random position among 0-3 arbitrary neighbours (which cannot signal it if M reacts to Signal), and M alone on the "
+                 "projected history (events addressed to M renamed to 0, to others to an unknown id); framework fractions unset. Both runs are executed on the real "
+                 "Framework and on the extracted Coq model (all output lines equal), and M's action stream must be identical in both runs. Non-trivial = M returned an action."),
+    },
     "C01": {
         "sub": "fw",
         "n": {"quick": 3000, "thorough": 200000},
